@@ -17,6 +17,9 @@ CHECKS = {
  "C04": (True, "exhaustive (type,n,m1,m2) enumeration + generated value patterns; dense reference model, exact determinant, backward-error oracle, two-padding differential; proptest + libFuzzer(thorough)",
          "All 3 x 385 size/bandwidth configurations are enumerated in every run with dozens of generated value patterns each (mixed signs, zero/negative diagonals, tiny sub-diagonals, singular); every result compared with the dense twin exactly (rationals) or within rounding bounds (floats), and between two padding values bitwise.",
          "Trusted: dense reference elimination, i128 rational determinant oracle (numerical fallback when it overflows on float data), float bounds with >100x head-room.", "5/C04"),
+ "C05": (True, "exhaustive (type,n) enumeration + generated diagonals; dense twin model, exact Thomas-recurrence oracle deciding refuse-vs-solve, exact determinant; proptest + libFuzzer(thorough)",
+         "All 36 (type, n<=12) configurations in every run with thousands of generated diagonal contents (zero-rich menus, dominance, constants); the harness's exact recurrence decides whether solve must refuse (panic mentioning 'zero') or return the exact solution; everything else compared with the dense twin.",
+         "Trusted: exact rational recurrence/determinant; float refusals asserted only when the f64 recurrence is provably exact (small dyadic intermediates); no accuracy claim for non-dominant float systems.", "5/C05"),
 }
 NOT_YET = "check not built yet in this revision of /verif (work in progress); the design for it is in DESIGN.md section 5"
 
